@@ -237,6 +237,14 @@ func rangeFacts(v *Term, t types.Type) []*Term {
 			out = append(out, rangeFacts(structField(t, v, i), u.Field(i).Type())...)
 		}
 		return out
+	case *types.Array:
+		if u.Len() <= 4 {
+			var out []*Term
+			for i := int64(0); i < u.Len(); i++ {
+				out = append(out, rangeFacts(Select(v, IntLit(i)), u.Elem())...)
+			}
+			return out
+		}
 	}
 	return nil
 }
